@@ -272,6 +272,9 @@ PATS = {
     "opt": [(1, [_pat(1, ["R", "RO", "R"])])],
     "neg": [(1, [_pat(1, ["R", "RN", "R"])])],
     "two": [(1, [_pat(1, ["R", "R", "R"])]), (2, [_pat(2, ["R", "R", "R"], 4)])],
+    # a, optionally b, c, d: a run that skipped b is at block 3 with two events; a, b*, c with no iteration likewise
+    "opt4": [(1, [_pat(1, ["R", "RO", "R", "R"])])],
+    "loop4": [(1, [_pat(1, ["R", "RL", "RO", "R"])])],
     # a pattern with many runs next to a singleton pattern (its runs are started on one instance only in the scenarios)
     "mix": [(1, [_pat(1, ["R", "R", "R"])]), (2, [_pat(2, ["R", "R", "R"], 4, True)])],
 }
